@@ -465,13 +465,23 @@ def isSimpleOp : Op → Bool
   | .callS _ _ | .emit _ _ _ _ | .throw_ => false
   | _ => true
 
-/-- for every fuel and program, `execOp` on such an operation is `stepSimple` -/
+/-- for every fuel and program, `execOp` on such an operation is the mode rule of the language followed
+    by `stepSimple` -/
 theorem execOp_simple (f : Nat) (P : Prog) (s : St) (op : Op) (hop : isSimpleOp op = true) :
-    execOp (f+1) P s op = match stepSimple s op with
-      | some (s', r) => some (s', .ok r)
-      | none => some (s, .ok "badop") := by
+    execOp (f+1) P s op = match modeRule P s op with
+      | some r => some (s, .ok r)
+      | none =>
+        match stepSimple s op with
+        | some (s', r) => some (s', .ok r)
+        | none => some (s, .ok "badop") := by
   cases op <;> simp only [isSimpleOp] at hop <;>
     first | exact absurd hop (by decide) | (rw [execOp] <;> first | rfl | (intros; contradiction) | (intro h; cases h))
+
+/-- the mode rule concerns only `conn`, `mkS`, `setS`, `connfn` -/
+theorem modeRule_none (P : Prog) (s : St) (op : Op)
+    (hop : (match op with | .conn _ _ _ _ _ | .mkS _ _ _ | .setS _ _ | .connfn _ _ _ _ => false | _ => true) = true) :
+    modeRule P s op = none := by
+  cases op <;> first | rfl | simp at hop
 
 theorem isSimpleOp_of_isKOp (op : Op) (h : isKOp op = true) : isSimpleOp op = true := by
   cases op <;> simp only [isKOp] at h <;> first | exact absurd h (by decide) | rfl
@@ -487,6 +497,9 @@ theorem kop_total (s : St) (op : Op) (hop : isKOp op = true) : ∃ s' r, stepSim
 theorem execOp_kop (f : Nat) (P : Prog) (s s' : St) (res : Except Unit String) (op : Op) (hop : isKOp op = true)
     (h : execOp (f+1) P s op = some (s', res)) : ∃ r, stepSimple s op = some (s', r) ∧ res = .ok r := by
   rw [execOp_simple f P s op (isSimpleOp_of_isKOp op hop)] at h
+  have hm : modeRule P s op = none := by
+    cases op <;> simp only [isKOp] at hop <;> first | exact absurd hop (by decide) | rfl
+  rw [hm] at h
   obtain ⟨s1, r1, h1⟩ := kop_total s op hop
   rw [h1] at h
   simp at h
